@@ -6,7 +6,7 @@ from fractions import Fraction as F
 
 from .. import bary, baryvert, dualasm, idxspace, roles, shapesets as S
 from ..core import AnalysisError
-from ..src import unparse
+from ..src import arg_names, unparse
 
 LEVEL = "other"
 TECHNIQUE = "literal-table lint: coefficient/dof tables re-derived in exact rationals from the connectivity pattern extracted from the code"
@@ -377,6 +377,23 @@ def rwg_tables(ctx, B, pts):
                         idx.append(side.slice.elts[1].value)
                 if len(idx) == 2:
                     seg[stt.targets[0].id] = tuple(idx)
+    # the points the lengths are measured between: the seven local points mapped to the *listed element* (not to its position)
+    bases = set()
+    for stt in ast.walk(g):
+        if isinstance(stt, ast.Assign) and isinstance(stt.targets[0], ast.Name) and stt.targets[0].id in seg:
+            a_ = stt.value.args[0]
+            bases |= {unparse(a_.left.value), unparse(a_.right.value)}
+    gp = arg_names(g)
+    lp = [l for l in ast.walk(g) if isinstance(l, ast.For) and isinstance(l.target, ast.Tuple) and len(l.target.elts) == 2 and unparse(l.iter).replace(" ", "") == "enumerate(%s)" % gp[1]]
+    okpts, whypts = False, "the sub-edge lengths are not all measured on one array of mapped points (found %s)" % sorted(bases)
+    if len(bases) == 1 and len(lp) == 1:
+        LV = bases.pop()
+        pos_, item_ = (t.id for t in lp[0].target.elts)
+        dfs = [s_ for s_ in ast.walk(lp[0]) if isinstance(s_, ast.Assign) and unparse(s_.targets[0]) == LV]
+        got_lv = unparse(dfs[0].value).replace(" ", "") if len(dfs) == 1 else None
+        okpts = got_lv == "%s.local2global(%s,%s)" % (gp[0], item_, gp[2])
+        whypts = "the points the sub-edge lengths are measured between are `%s`, expected the local points mapped to the listed element: %s.local2global(%s, %s)" % (got_lv, gp[0], item_, gp[2])
+    r2.check(okpts, "mapped points", MS, "generate_rwg0_map", g.lineno, "points of the edge-length table", whypts)
     okp, whyp, names = _placement(g, True)
     r4 = ctx.rule("RWG-BARY-PLACE", "generate_rwg0_map scales coeffs[k] by outer_edges[k]/dof_mult and writes row j to barycentric element 6*index + j", 1)
     r4.check(okp, "generate_rwg0_map", MS, "generate_rwg0_map", g.lineno, "generate_rwg0_map placement", whyp)
